@@ -7,7 +7,7 @@ VERIF = os.path.dirname(os.path.dirname(os.path.abspath(__file__)))
 
 CLAIMED = {
     "C17": dict(cat="exploration", design="§5 C17", engine="bindgen",
-                text="cglue-bindgen runs unmodified on headers from a calibrated emulator of cbindgen's output shape (API models: plugin-api + seeded models incl. name clashes, consuming receivers, function-pointer arguments, mixed contexts, 6 tool configurations); for every root type mock vtables log root/trait/slot/container/argument checks and every emitted wrapper is called with sentinel arguments in a C driver under ASan+UBSan; the log is judged offline (slot identity, argument order, result, ownership counters, release order, ordering of the context guard, completeness); sizeof of every header type is compared with the Rust layout; the header's callback/iterator helper macros are driven with 0..1000 items. The same models are emitted in cbindgen's C++ shape and every member-function wrapper is driven by one C++ translation unit per root type (g++/clang++, c++11/17).",
+                text="cglue-bindgen runs unmodified on headers from a calibrated emulator of cbindgen's output shape (API models: plugin-api + seeded models incl. name clashes, consuming receivers, function-pointer arguments, mixed contexts, wrapped returns emitted as cbindgen's context-generic `*_Context` instantiations, 10 tool configurations); for every root type mock vtables log root/trait/slot/container/argument checks and every emitted wrapper is called with sentinel arguments in a C driver under ASan+UBSan; the log is judged offline (slot identity, argument order, result, ownership counters, release order, ordering of the context guard, completeness); sizeof of every header type is compared with the Rust layout; the header's callback/iterator helper macros are driven with 0..1000 items. The same models are emitted in cbindgen's C++ shape and every member-function wrapper is driven by one C++ translation unit per root type (g++/clang++, c++11/17).",
                 note="Trusts the cbindgen emulators (C and C++ shape, calibrated against examples/pregen-headers/bindings.h and bindings.hpp).",
                 tech="runtime monitoring: mock-vtable call logs from a generated C driver + offline checker"),
     "C18": dict(cat="exploration", design="§5 C18", engine="bindgen",
@@ -15,19 +15,19 @@ CLAIMED = {
                 note="Trusts the cbindgen emulators (C and C++ shape).",
                 tech="runtime monitoring: repeated tool executions + compilers as acceptors + text oracles"),
     "C05": dict(cat="exploration", design="§5 C05", engine="xmod",
-                text="A host binary dlopen()s a plugin cdylib built separately by another compiler version / optimisation level / repr(Rust) layout seed, each with its own tagging allocator and payload registry; seeded lifecycle histories over plugin-made objects are compared with the same histories on host-made objects, and both allocators watch for foreign or mis-sized frees and leftover instances; foreign CVecs are edited with every growing/shrinking operation in both directions, bare CArcs are cloned and released on either side in every order, and an object that is the sole holder of a library-like context is consumed across the boundary under a backtrace oracle.",
+                text="A host binary dlopen()s a plugin cdylib built separately by another compiler version / optimisation level / repr(Rust) layout seed, each with its own tagging allocator and payload registry (plus module pairs built with the library's rust_void feature, where the erased type is zero-sized); seeded lifecycle histories over plugin-made objects are compared with the same histories on host-made objects, and both allocators watch for foreign or mis-sized frees and leftover instances; foreign CVecs are edited with every growing/shrinking operation in both directions, bare CArcs are cloned and released on either side in every order, and an object that is the sole holder of a library-like context is consumed across the boundary under a backtrace oracle.",
                 note="Four installed toolchains only; both modules share the OS allocator underneath, ownership is observed by the per-module tracking tables.",
                 tech="runtime monitoring: cross-module differential histories + per-module tagging allocators"),
     "C16": dict(cat="exploration", design="§5 C16", engine="cview",
-                text="A C program compiled by gcc and clang with ASan+UBSan includes only the published declarations (cview/cglue_rt.h) and operates values created by Rust - and forges values consumed by Rust - over seeded operation sequences; Rust-side drop/refcount counters and C-side models are compared after every step; debug and release (thorough: randomized repr(Rust) layout) builds of the library; iterators over boxed items with an output-only slot; callbacks/iterators built with the helper macros of the processed header.",
+                text="A C program compiled by gcc and clang with ASan+UBSan includes only the published declarations (cview/cglue_rt.h) and operates values created by Rust - and forges values consumed by Rust - over seeded operation sequences; Rust-side drop/refcount counters and C-side models are compared after every step; debug and release (thorough: randomized repr(Rust) layout) builds of the library; iterators over boxed items with an output-only slot; callbacks/iterators built with the helper macros of the processed header; a C-made arc that issues one handle per reference; C-built text with NUL bytes read as &str; the C++ bridges of the processed .hpp (range-for over CIterator with arbitrary end codes, CPPIterator, callbacks from vector/lambda, slices from strings) run under ASan+UBSan.",
                 note="Trusts the hand-written header as the published C view (cross-checked against examples/pregen-headers).",
                 tech="runtime monitoring: C driver over published declarations + ASan/UBSan + counter oracles"),
     "C20": dict(cat="exploration", design="§5 C20", engine="glue",
-                text="Generated (definition, single-edit variant) pairs are expanded by the real macros with layout_checks on; the library's compare_layouts is executed on every pair in both directions, on self-pairs and with a missing side, and compared with an expectation computed from our own C-signature tables; VerifyLayout::and is run on all nine pairs.",
+                text="Generated (definition, single-edit variant) pairs are expanded by the real macros with layout_checks on; the library's compare_layouts is executed on every pair in both directions, on self-pairs and with a missing side, and compared with an expectation computed from our own C-signature tables; VerifyLayout::and is run on all nine pairs. Base traits include entries taking the library's generic FFI types (OpaqueCallback/CIterator/CSliceRef/CSliceMut/COption<T>: element-type edits), wrapped returns, group-internal edits, and a four-parameter trait expanded eight times from the identical definition (all must be Valid).",
                 note="Trusts the generator's C-signature table as the definition of 'C-visible interface'.",
                 tech="runtime monitoring: executed comparison over generated definition pairs with a model oracle"),
     "C09": dict(cat="exploration", design="§5 C09", engine="probe",
-                text="An always-compiling probe is executed and prints the complete 30-rule x 4-class x 2-marker auto-trait matrix (25 erasure rules + 5 pointer-vs-std-handle rows) (finite, enumerated completely); every cell where the opaque type has a marker its instance handle lacks is a violation unless listed (78 known cells = upstream issue 18). Safe-code race witnesses for the rule families run under Miri's data-race detector and do race.",
+                text="An always-compiling probe is executed and prints the complete auto-trait matrix: 28 erasure rules + 5 pointer-vs-std-handle rows + 22 candidate handle shapes that have no rule on the pinned tree (vacuous until one appears), each x 4 payload classes x 2 markers (finite, enumerated completely); every cell where the opaque type has a marker its instance handle lacks is a violation unless listed (94 known cells = upstream issue 18). The `Opaquable for` impl headers in the source are counted; a rule without a row makes the run inconclusive. Safe-code race witnesses for the rule families run under Miri's data-race detector and do race.",
                 note="The judgement per cell is the trait solver's (static); the matrix is read out at run time. Witnesses cover rule families, not every cell.",
                 tech="exhaustive finite matrix read out by an executed probe + Miri data-race witnesses"),
     "C03": dict(cat="translation_validation", design="§5 C03", engine="expander",
@@ -35,15 +35,15 @@ CLAIMED = {
                 note="Trusts rustc's FFI-safety lints; generic container parameters are opaque to the lint inside generic wrappers (covered by concrete probes).",
                 tech="runtime monitoring of generator executions: per-output validation by the compiler's FFI lint"),
     "C04": dict(cat="exploration", design="§5 C04", engine="glue",
-                text="Live vtables, objects and groups are read word by word (the foreign caller's view) and compared with expectations computed by the generator of the probes (declaration order, own name sort, enabled sets); repeated on nightly -Zrandomize-layout builds; the code generator is run in fresh processes and must describe identical structs; sizeof of every type in the processed C and C++ headers is compared with the Rust layout (size model checked against the real examples/plugin-api types).",
+                text="Live vtables, objects and groups are read word by word (the foreign caller's view) and compared with expectations computed by the generator of the probes (declaration order, own name sort, enabled sets); repeated on nightly -Zrandomize-layout builds; the code generator is run in fresh processes and must describe identical structs; sizeof of every type in the processed C and C++ headers, and the member list of every container in the processed C header, are compared with the Rust layout (size model checked against the real examples/plugin-api types).",
                 note="Trusts size_of/align_of and pointer-sized word reads of repr(C) objects.",
                 tech="runtime monitoring: raw-word probes of live objects + repeated generator executions"),
     "C01": dict(cat="exploration", design="§5 C01", engine="glue",
-                text="Differential runtime monitoring of generated glue: a generated corpus of traits (one per argument/return shape, multi-method, attribute, consuming, int_result traits) is compiled with the real macros; the same generic driver runs seeded call histories on the opaque object (Box/Mut/Ref/CArcSome, with/without context) and directly on the implementor, comparing return digests, the implementor's event log and every instance state after each call. Native, Miri (by-ref subset), ASan.",
+                text="Differential runtime monitoring of generated glue: a generated corpus of traits (one per argument/return shape, multi-method, attribute, consuming, int_result traits) is compiled with the real macros; the same generic driver runs seeded call histories on the opaque object (Box/Mut/Ref/CArcSome, with/without context) and directly on the implementor, comparing return digests, the implementor's event log and every instance state after each call; the ::ext Sink/Stream objects are driven through every short op sequence against the value itself; objects and groups over Fwd<&mut T> (#[cglue_forward]) with overridden provided methods. Native, Miri (by-ref subset), ASan.",
                 note="Trusts the recording implementor and digest functions in /verif/gluert; grammar limited to shapes cglue accepts (calibrated on the unchanged tree).",
                 tech="runtime monitoring: differential execution of generated programs + event-log comparison"),
     "C02": dict(cat="exploration", design="§5 C02", engine="glue",
-                text="The implementor records content digest, length and address of every argument it receives and returns state-derived values out of its own storage; the caller compares both directions against what it sent and against a direct call, including writes through &mut and callback/iterator item sequences. Native, Miri, ASan.",
+                text="The implementor records content digest, length and address of every argument it receives and returns state-derived values out of its own storage; the caller compares both directions against what it sent and against a direct call, including writes through &mut, callback/iterator item sequences and the results/state of ::ext Sink/Stream objects. Native, Miri, ASan.",
                 note="Trusts the digest functions; addresses compared as integers.",
                 tech="runtime monitoring: argument/return digests and addresses recorded on both sides"),
     "C06": dict(cat="exploration", design="§5 C06", engine="glue",
@@ -51,11 +51,11 @@ CLAIMED = {
                 note="Trusts the generator's ownership model and the Tracked registry.",
                 tech="runtime monitoring: drop registry + tracking allocator over generated lifecycle programs"),
     "C07": dict(cat="exploration", design="§5 C07", engine="glue",
-                text="Context reference count compared with a model of live context-holding objects after every step of generated lifecycle programs and after the last drop; one open finding (borrowed-child context leak) keyed by exact signature.",
+                text="Context reference count compared with a model of live context-holding objects after every step of generated lifecycle programs and after the last drop; a backtrace oracle for consuming calls; a foreign handle-per-reference context (clone_fn issues a new handle, drop_fn retires exactly one: no double retire, no clone through a retired handle, all retired at the end); one open finding (borrowed-child context leak) keyed by exact signature.",
                 note="Trusts Arc::strong_count and the generator's model.",
                 tech="runtime monitoring: reference-count oracle against a model"),
     "C08": dict(cat="exploration", design="§5 C08", engine="glue",
-                text="Exhaustive enumeration of cast sites (enabled set x requested subset x operation x container) for two groups incl. aliased generic instantiations, each executed with dispatch and ownership oracles.",
+                text="Exhaustive enumeration of cast sites (enabled set x requested subset x operation x container) for two groups incl. aliased generic instantiations, each executed with dispatch and ownership oracles; lifetime bounds inside cast lists; groups over Fwd<&mut T> against the forward list of cglue_impl_group! (six implementors whose owned/forward lists differ in every way).",
                 note="Restricted to combinations cglue accepts at compile time.",
                 tech="runtime monitoring: exhaustive generated cast sites with event-log dispatch oracle"),
     "C10": dict(cat="exploration", design="§5 C10",
@@ -75,11 +75,11 @@ CLAIMED = {
                 note="Trusts the Tracked registry; Miri with Stacked Borrows disabled.",
                 tech="runtime monitoring: sentinel slots + drop registry + Miri uninit detection"),
     "C14": dict(cat="exploration", design="§5 C14",
-                text="Every string over {NUL,a,é,€,😀} up to 5-6 symbols through all three constructors, checked for content, terminator, eq/hash/clone, exactly one live block of len+1 bytes, free layout and leaks by a tracking allocator (release and debug builds), and for out-of-bounds reads/leaks by Miri, ASan and valgrind.",
+                text="Every string over {NUL,a,é,€,😀} up to 5-6 symbols through all three constructors, checked for content, terminator, eq/hash/clone, exactly one live block of len+1 bytes, free layout and leaks by a tracking allocator (release and debug builds), and for out-of-bounds reads/leaks by Miri, ASan and valgrind; with the library's serde feature, ~1000 strings built by deserialisation (transient/owned/borrowed strings, JSON from memory and reader) and serialised again.",
                 note="Trusts the tracking allocator's live table; debug build + Miri are the leak oracles (release may elide a leaked Box).",
                 tech="runtime monitoring: exhaustive small alphabet + allocator accounting + Miri/ASan/valgrind"),
     "C15": dict(cat="exploration", design="§5 C15",
-                text="Exhaustive grid of item counts x stop positions x entry points x sinks for callbacks, and n x advance x non-fused gap for CIterator, with sequence-numbered drop-tracked items; natively, under Miri and ASan.",
+                text="Exhaustive grid of item counts x stop positions x entry points x sinks for callbacks, and n x advance x non-fused gap for CIterator, with sequence-numbered drop-tracked items; natively, under Miri and ASan; the C helper macros and the C++ bridges of the processed headers run the same way.",
                 note="Trusts the harness sinks/sources.",
                 tech="runtime monitoring: exhaustive grid with sequence + ownership oracles, Miri/ASan"),
     "C19": dict(cat="exploration", design="§5 C19",
@@ -119,7 +119,7 @@ def main():
                    baseline_off_cmd="cd /repo && cargo test --workspace --no-fail-fast --offline",
                    source_commits=[], add_only=True),
         engines=[
-            dict(name="bindgen", path="bindgen/", serves_properties=["C17", "C18"], kind_free_text="cbindgen output-shape emulator, fake cbindgen/rustup, C driver generator and offline oracle for cglue-bindgen"),
+            dict(name="bindgen", path="bindgen/", serves_properties=["C04", "C15", "C16", "C17", "C18"], kind_free_text="cbindgen output-shape emulator, fake cbindgen/rustup, C driver generator and offline oracle for cglue-bindgen"),
             dict(name="xmod", path="xmod/", serves_properties=["C05"], kind_free_text="shared API crate, plugin cdylib and host binary built by different toolchains"),
             dict(name="cview", path="cview/", serves_properties=["C16"], kind_free_text="C header of the published runtime-type declarations, C driver, Rust staticlib of constructors/consumers/counters"),
             dict(name="probe", path="probe/", serves_properties=["C09"], kind_free_text="auto-trait matrix probe and safe-code race witnesses"),
@@ -127,7 +127,7 @@ def main():
                  kind_free_text="binary linking cglue-gen as a library: runs the real code generator on definition files and prints the expansion"),
             dict(name="glue", path="glue/", serves_properties=["C01", "C02", "C06", "C07", "C08", "C13"],
                  kind_free_text="python generators of Rust programs using the real cglue macros (trait corpus, lifecycle programs) + gluert support crate; built and run natively, under Miri and ASan"),
-            dict(name="rt", path="rt/", serves_properties=["C10", "C11", "C12", "C13", "C14", "C15", "C19"],
+            dict(name="rt", path="rt/", serves_properties=["C01", "C02", "C10", "C11", "C12", "C13", "C14", "C15", "C19"],
                  kind_free_text="Rust harness binary driving the runtime library under native/Miri/ASan/TSan/valgrind with monitors from vmon/"),
         ],
         checks=checks,
